@@ -39,6 +39,9 @@ pub enum Kind {
     /// genuinely signed by an authorised actor for a register with another meta, then RE-ADDRESSED to this
     /// register (address field rewritten, signature kept): what a peer that observed the op elsewhere can forge
     Readdressed,
+    /// genuinely signed by an authorised actor for this register, then RE-PARENTED: only the children set of the
+    /// crdt op is rewritten (value, source, address and signature kept)
+    Reparented,
 }
 
 #[derive(Serialize, Deserialize, Clone, Copy, Debug, PartialEq, Eq)]
@@ -204,6 +207,7 @@ fn gen_small(rng: &mut Rng, ctx: &GenCtx) -> Plan {
         if rng.chance(1, 3) { rng.range(1, 2) } else { 0 },
         if rng.chance(1, 2) { rng.range(1, 3) } else { 0 },
         if rng.chance(1, 2) { rng.range(1, 3) } else { 0 },
+        if rng.chance(1, 2) { rng.range(1, 3) } else { 0 },
     ];
     let kinds = [
         Kind::Good,
@@ -214,6 +218,7 @@ fn gen_small(rng: &mut Rng, ctx: &GenCtx) -> Plan {
         Kind::ForeignOwner,
         Kind::Oversized,
         Kind::Readdressed,
+        Kind::Reparented,
     ];
     let parents_w = [
         12,
